@@ -1,0 +1,45 @@
+//go:build verif
+
+package compact
+
+import (
+	"diagonal.works/b6"
+	"diagonal.works/b6/verifrt"
+)
+
+// Lemmas of the b6vc verifier (/verif). Parameters are universally
+// quantified; the bodies call the real functions.
+
+// C10: feature type (3 bits) and namespace index (13 bits) pack into 16 bits.
+func verifLemma_C10_type_and_namespace(t b6.FeatureType, ns Namespace) {
+	verifrt.Assume(t >= 0 && t < 8)
+	verifrt.Assume(ns < 1<<13)
+	gt, gns := CombineTypeAndNamespace(t, ns).Split()
+	verifrt.Assert(gt == t, "type")
+	verifrt.Assert(gns == ns, "namespace")
+}
+
+// C10: Split/Combine is also the identity on every 16-bit packed value.
+func verifLemma_C10_type_and_namespace_onto(tn TypeAndNamespace) {
+	t, ns := tn.Split()
+	verifrt.Assert(CombineTypeAndNamespace(t, ns) == tn, "onto")
+}
+
+// C10: the value-type tag occupies the two low bits; the payload survives
+// whenever EncodeValueType accepts it (it panics rather than truncate).
+func verifLemma_C10_value_type(t b6.ExpressionType, v uint64) {
+	verifrt.Assume(t >= 0 && t < 1<<ValueTypeBits)
+	verifrt.Assume(v < 1<<62)
+	e := EncodeValueType(t, v)
+	verifrt.Assert(e>>ValueTypeBits == v, "payload")
+	verifrt.Assert(b6.ExpressionType(e&((1<<ValueTypeBits)-1)) == t, "type")
+}
+
+// C10: geometry encoding and length share one varint value.
+func verifLemma_C10_geometry(e GeometryEncoding, l int) {
+	verifrt.Assume(e == GeometryEncodingReferences || e == GeometryEncodingLatLngs || e == GeometryEncodingMixed)
+	verifrt.Assume(l >= 0 && l < 1<<60)
+	v := EncodeGeometry(e, l)
+	verifrt.Assert(DecodeGeometryLen(v) == l, "length")
+	verifrt.Assert(DecodeGeometryEncoding(v) == e, "encoding")
+}
